@@ -38,7 +38,11 @@ RULE = ("seeded zoo trees (single/optional/union/variadic/fixed-tuple child fiel
         "classes (Expr, Leaf, ASTNode, object) and own classes, spread over two visitor classes; scenario kinds: "
         "no-op, removal at first/middle/last tuple position, removal in optional and in required single fields, "
         "class-wide rules, a raise placed after earlier changes, random mixes; dispatch cases: every zoo class "
-        "(plus deeper subclass chains) x random method-name sets x strict; a transform case is non-trivial when "
+        "(plus deeper subclass chains) x random method-name sets x strict; visitor CLASSES are re-used: one class per "
+        "method-name set (pooled across cases), `strict` / rule table per instance, instances with both strictness "
+        "values run right after each other on the same tree in both orders (and the first again, for dispatch), "
+        "so that results must not depend on what was visited before; 30% of the cases use a fresh class with a "
+        "class-level strict; a transform case is non-trivial when "
         "the tree has >= 3 nodes and the rule table is not empty; distinct by request line; exhaustive small scope: "
         "for small trees (2-4 node objects) EVERY assignment of one of the six actions to every node object "
         "(4 trees quick, 120 thorough)")
@@ -148,6 +152,51 @@ def make_visitor(table: dict, strict: bool, toks: zoo.Tokens, rng: random.Random
     kw = {"validate": True} if rng.random() < 0.3 else {}
     base = type("VBase", (ASTTransformVisitor,), base_ns, **kw)
     return type("V", (base,), der_ns, **kw)
+
+
+# Visitor CLASSES reused across cases: a class is determined by the set of class names it has visit_
+# methods for; what a method does (the rule table), the token table and `strict` are per-INSTANCE state
+# (`strict` is a plain attribute of ASTVisitor: setting it in __init__ is ordinary use).  Instances of
+# one class with different strictness and different rule tables visit different trees in the same
+# process, in both orders: the outcome of a visit must not depend on what was visited before
+# (process-level caches keyed by visitor class / node class are exposed this way).
+_POOL: dict[tuple, type] = {}
+
+
+def pooled_visitor_class(names, rng: random.Random):
+    key = tuple(sorted(names))
+    cls = _POOL.get(key)
+    if cls is not None:
+        return cls
+
+    def mk(cname):
+        def method(self, node):
+            dflt, per = self._table[cname]
+            return perform(self, node, per.get(self._toks.by_id.get(id(node)), dflt))
+
+        method.__name__ = "visit_" + cname
+        method.__annotations__ = {"node": cname}
+        return method
+
+    def init(self, strict, table, toks):
+        self.strict = strict
+        self._table = table
+        self._toks = toks
+
+    order = list(key)
+    rng.shuffle(order)
+    cut = rng.randint(0, len(order))
+    base_ns = {"visit_" + c: mk(c) for c in order[:cut]}
+    der_ns = {"visit_" + c: mk(c) for c in order[cut:]}
+    (base_ns if rng.random() < 0.5 else der_ns)["__init__"] = init
+    if rng.random() < 0.3:
+        # a class-level default that every instance overrides
+        base_ns["strict"] = rng.random() < 0.5
+    kw = {"validate": True} if rng.random() < 0.3 else {}
+    base = type("PBase", (ASTTransformVisitor,), base_ns, **kw)
+    cls = type("P", (base,), der_ns, **kw)
+    _POOL[key] = cls
+    return cls
 
 
 # ------------------------------------------------------------------ observation
@@ -369,27 +418,38 @@ def gen_case(rng: random.Random, tier: str):
 
 def run_case(rng, root, extras, toks, orgs, tree_sx, extras_sx, ctr, table, strict, scen):
     n_nodes = 1 + sum(1 for _ in zoo.positions(root))
-    V = make_visitor(table, strict, toks, rng)
-    snap = snapshot(list(toks.objs))
-    try:
-        vis = V()
-        res = vis.transform(root) if rng.random() < 0.7 else vis.visit(root)
-        real = dumps([A("ok"), canon_out(res, toks, orgs)])
-    except Exception:  # noqa
-        real = dumps([A("raise")])
-    bad = snapshot_ok(snap)
     rules_sx = [A("rules")] + [[c, enc_act(d, toks)] + [[t, enc_act(a, toks)] for t, a in per.items()]
                                for c, (d, per) in table.items()]
-    line = dumps([A("transform"), zoo.class_table(), orgs.sexp(), [A("tree"), tree_sx], [A("extra")] + extras_sx,
-                  [A("strict"), strict], [A("ctr"), ctr], rules_sx])
-    desc = (f"{zoo.show(root)} strict={strict} rules=" +
-            "; ".join(f"visit_{c}: default {show_act(d, toks)}" +
-                      "".join(f", on #{t}:{type(toks.objs[t]).__name__} {show_act(a, toks)}" for t, a in per.items())
-                      for c, (d, per) in table.items()))
+    rules_txt = "; ".join(f"visit_{c}: default {show_act(d, toks)}" +
+                          "".join(f", on #{t}:{type(toks.objs[t]).__name__} {show_act(a, toks)}"
+                                  for t, a in per.items())
+                          for c, (d, per) in table.items())
     nontriv = n_nodes >= 3 and bool(table)
-    yield Case(scen, line, real, nontriv, desc, sig=f"transform|{scen.split('_')[0]}")
-    if bad:
-        yield Case("purity", None, None, nontriv, desc, oracle_fail=bad, sig="transform|input-modified")
+    if rng.random() < 0.3:
+        # a fresh visitor class, strictness as a class attribute
+        V = make_visitor(table, strict, toks, rng)
+        runs = [(strict, V, "class-attr")]
+    else:
+        # a pooled (re-used) class; one instance per strictness, the generated one first, then the other
+        P = pooled_visitor_class(table.keys(), rng)
+        runs = [(strict, lambda: P(strict, table, toks), "instance-attr"),
+                (not strict, lambda: P(not strict, table, toks), "instance-attr, same class right after "
+                                                                  f"an instance with strict={strict}")]
+    for st, make, how in runs:
+        snap = snapshot(list(toks.objs))
+        try:
+            vis = make()
+            res = vis.transform(root) if rng.random() < 0.7 else vis.visit(root)
+            real = dumps([A("ok"), canon_out(res, toks, orgs)])
+        except Exception:  # noqa
+            real = dumps([A("raise")])
+        bad = snapshot_ok(snap)
+        line = dumps([A("transform"), zoo.class_table(), orgs.sexp(), [A("tree"), tree_sx], [A("extra")] + extras_sx,
+                      [A("strict"), st], [A("ctr"), ctr], rules_sx])
+        desc = f"{zoo.show(root)} strict={st} ({how}) rules={rules_txt}"
+        yield Case(scen, line, real, nontriv, desc, sig=f"transform|{scen.split('_')[0]}")
+        if bad:
+            yield Case("purity", None, None, nontriv, desc, oracle_fail=bad, sig="transform|input-modified")
 
 
 def exhaustive_cases(rng: random.Random, n_trees: int):
@@ -435,23 +495,42 @@ def dispatch_cases(rng: random.Random, n_sets: int):
         if rng.random() < 0.5 and "Leaf" not in names:
             names.append(rng.choice(["Leaf", "Expr", "ASTNode", "object"]))
         names = list(dict.fromkeys(names))
-        for strict in (False, True):
-            ns = {"generic_visit": lambda self, node: "generic"}
-            for c in names:
-                ns["visit_" + c] = (lambda cc: lambda self, node: cc)(c)
-            if strict or rng.random() < 0.5:
-                ns["strict"] = strict
+        ns = {"generic_visit": lambda self, node: "generic"}
+        for c in names:
+            ns["visit_" + c] = (lambda cc: lambda self, node: cc)(c)
+        per_instance = rng.random() < 0.75
+        if per_instance:
+            # one visitor class, `strict` set per instance; the order of the strictness values alternates
+            # and the first one is visited again at the end (history independence)
+            def init(self, strict):
+                self.strict = strict
+
+            ns["__init__"] = init
             V = type("DV", (ASTVisitor,), ns)
+            first = rng.random() < 0.5
+            plan = [(first, lambda st=first: V(st)), (not first, lambda st=not first: V(st)),
+                    (first, lambda st=first: V(st))]
+        else:
+            plan = []
+            for strict in (False, True):
+                ns2 = dict(ns)
+                if strict or rng.random() < 0.5:
+                    ns2["strict"] = strict
+                V2 = type("DV", (ASTVisitor,), ns2)
+                plan.append((strict, V2))
+        for step, (strict, make) in enumerate(plan):
             for cls, inst in insts:
                 try:
-                    got = V().visit(inst)
+                    got = make().visit(inst)
                     real = dumps([A("ok"), A("generic") if got == "generic" else got])
                 except Exception:  # noqa
                     real = dumps([A("raise")])
                 line = dumps([A("dispatch"), [A("strict"), strict], [A("names")] + names,
                               [A("mro")] + [k.__name__ for k in cls.__mro__], [A("cls"), cls.__name__]])
                 yield Case("dispatch_strict" if strict else "dispatch", line, real, bool(names),
-                           f"visit({cls.__name__}()) strict={strict} methods={['visit_' + c for c in names]}",
+                           f"visit({cls.__name__}()) strict={strict} "
+                           f"({'instance attribute, step %d of %s' % (step, [p[0] for p in plan]) if per_instance else 'class attribute'}) "
+                           f"methods={['visit_' + c for c in names]}",
                            sig=f"dispatch|strict={strict}")
 
 
